@@ -188,14 +188,36 @@ def rule_range_edit(ctx, F):
     else:
         ctx.ok("W2", "ts_range_edit:own-mapping", "ts_range_edit does not delegate to ts_point_edit (the two mappings differ inside the edited region)")
     for end in ("start", "end"):
-        clamp = [pt for pt, n in find(fn, "range->%s_byte = edit->start_byte" % end)]
-        shift = [pt for pt, n in find(fn, "range->%s_byte = edit->new_end_byte + (range->%s_byte - edit->old_end_byte)" % (end, end))]
+        loc = "range->%s_byte" % end
+        clamp = [pt for pt, n in find(fn, "%s = edit->start_byte" % loc)]
+        # the shift (and its overflow pin) may sit in ts_range_edit itself or in a helper that is handed `&range-><end>_byte`
+        sites = [(fn, loc, None)]
+        for pt, c in fn.calls():
+            h = F.fns.get(callee_name(c) or "")
+            if h is None or h.name == fn.name:
+                continue
+            for i, a in enumerate(c.get("a", [])):
+                if M(fn).match("&" + loc, a) and i < len(h.params):
+                    sites.append((h, "*" + h.params[i]["name"], pt))
+        shift = []
+        for g, L, call_pt in sites:
+            ed = "edit" if g is fn else next((p["name"] for p in g.params if "TSInputEdit" in (p.get("t") or "")), "edit")
+            for pt, n in find(g, "%s = %s->new_end_byte + (%s - %s->old_end_byte)" % (L, ed, L, ed)):
+                shift.append((g, L, ed, call_pt, pt))
         if not clamp or not shift:
             ctx.bad("W2", "ts_range_edit:%s-mapping" % end, "ts_range_edit no longer both shifts (>= old end) and clamps to the edit start (inside the edit) the range's %s" % end)
             continue
-        ctx.gate("W2", fn, clamp, [("%s inside the replaced text collapses to the edit start" % end, "range->%s_byte > edit->start_byte" % end, True),
-                                   ("…only when not at/after the old end", "range->%s_byte >= edit->old_end_byte" % end, False)], accept_desc="clamping the range %s" % end)
-        ctx.gate("W2", fn, shift, [("%s at/after the old end is shifted" % end, "range->%s_byte >= edit->old_end_byte" % end, True)], accept_desc="shifting the range %s" % end)
+        ctx.gate("W2", fn, clamp, [("%s inside the replaced text collapses to the edit start" % end, "%s > edit->start_byte" % loc, True),
+                                   ("…only when not at/after the old end", "%s >= edit->old_end_byte" % loc, False)], accept_desc="clamping the range %s" % end)
+        for g, L, ed, call_pt, pt in shift:
+            at = [pt] if g is fn else [call_pt]
+            ctx.gate("W2", fn, at, [("%s at/after the old end is shifted" % end, "%s >= edit->old_end_byte" % loc, True)], accept_desc="shifting the range %s" % end)
+            # the shifted value is pinned to UINT32_MAX only when the addition really wrapped (strictly below the new end)
+            pins = [p for p, n in find(g, "%s = 4294967295" % L)]
+            if pins:
+                ctx.gate("W2", g, pins, [("%s is pinned to UINT32_MAX only after a genuine wrap-around" % end, "%s < %s->new_end_byte" % (L, ed), True)], accept_desc="pinning the range %s" % end)
+            else:
+                ctx.bad("W2", "%s:%s-overflow-pin" % (g.name, end), "the shifted range %s is no longer pinned to UINT32_MAX on wrap-around" % end)
         pts = [pt for pt, n in find(fn, "range->%s_point = edit->start_point" % end)]
         if pts:
             ctx.ok("W2", "ts_range_edit:%s-point-follows" % end, "the point of the range %s is clamped together with its byte" % end)
